@@ -22,7 +22,7 @@ import (
 	"verif/wire"
 )
 
-func init() { register("C04", runC04) }
+func main() { os.Exit(runC04(ev.ArgTier(), ev.ArgRest())) }
 
 // mapCtx is an FContext whose header maps are exactly what the case says, so
 // that WriteRequestHeader/WriteResponseHeader can be driven with arbitrary
@@ -426,10 +426,7 @@ func runC04(tier string, args []string) int {
 
 	// Python leg
 	pyCases := 0
-	scratch := os.Getenv("VERIF_SCRATCH_DIR")
-	if scratch == "" {
-		scratch = os.TempDir()
-	}
+	scratch := ev.ScratchDir()
 	in := filepath.Join(scratch, "c04-corpus.jsonl")
 	out := filepath.Join(scratch, "c04-py.jsonl")
 	f, _ := os.Create(in)
@@ -450,7 +447,7 @@ func runC04(tier string, args []string) int {
 	bw.Flush()
 	f.Close()
 	cmd := exec.Command("python3", filepath.Join(ev.Root(), "py", "headers_check.py"), in, out)
-	cmd.Env = append(os.Environ(), "VERIF_REPO="+repoDir())
+	cmd.Env = append(os.Environ(), "VERIF_REPO="+ev.RepoDir())
 	if o, err := cmd.CombinedOutput(); err != nil {
 		run.Violation("C04:python-leg-crash", "the Python codec leg did not run to completion: "+err.Error(), string(o))
 	} else {
@@ -516,9 +513,3 @@ func runC04(tier string, args []string) int {
 	return run.Finish()
 }
 
-func repoDir() string {
-	if r := os.Getenv("VERIF_REPO"); r != "" {
-		return r
-	}
-	return "/repo"
-}
